@@ -85,6 +85,8 @@ struct TInfo {
     note: String,
     last_label: &'static str,
     wake_gen: u64,
+    /// PCT priority (higher runs first); values below 1000 are the ones handed out at change points
+    prio: u64,
 }
 
 /// Internal heap payloads owned by simrt itself.
@@ -132,6 +134,12 @@ pub struct SchedCfg {
     pub client_stall_permille: u32,
     pub client_stall_max_ns: u64,
     pub record_text: bool,
+    /// PCT-style scheduling (Burckhardt et al.): when non-empty, every thread (and the stream of harness events)
+    /// has a priority derived from the run's hash seed, the enabled candidate of highest priority always runs, and
+    /// at each of these scheduler step numbers the thread that is running drops below everybody else.
+    /// Empty = the uniform / sticky random scheduler.
+    pub pct_points: Vec<u64>,
+    pub pct: bool,
 }
 
 impl Default for SchedCfg {
@@ -146,6 +154,8 @@ impl Default for SchedCfg {
             client_stall_permille: 0,
             client_stall_max_ns: 0,
             record_text: false,
+            pct_points: Vec::new(),
+            pct: false,
         }
     }
 }
@@ -161,6 +171,8 @@ pub struct Stats {
     pub max_poll_batch: u64,
     pub poll_batches: u64,
     pub poll_batch_sigs: Vec<u64>,
+    pub pct_changes: u64,
+    pub pct_run: u64,
 }
 
 pub struct Sim {
@@ -186,6 +198,7 @@ pub struct Sim {
     io_exit_seq: Option<u64>,
     draining: bool,
     gates: Vec<u64>,
+    pct_low: u64,
 }
 
 static SIM: Mutex<Option<Box<Sim>>> = Mutex::new(None);
@@ -390,6 +403,12 @@ impl Sim {
                     }
                 }
             }
+            // PCT change point: the thread that was running drops below everybody else
+            if self.cfg.pct && me != 0 && !self.draining && self.pct_low > 0 && self.cfg.pct_points.contains(&self.steps) {
+                self.threads[me].prio = self.pct_low;
+                self.pct_low -= 1;
+                self.stats.pct_changes += 1;
+            }
             // candidate order: current thread, the due event, other threads by id
             let mut idx = 0usize;
             if self.draining {
@@ -401,6 +420,33 @@ impl Sim {
                     let next = cands.iter().skip(1).position(|t| *t > me).map(|p| p + 1).unwrap_or(1);
                     idx = next;
                 }
+            } else if n > 1 && self.cfg.pct {
+                // PCT: no draw; priorities decide.  idx order is: me (if enabled), the due event, the other threads.
+                let me_first = !cands.is_empty() && cands[0] == me;
+                let ev_prio = match self.heap.peek() {
+                    Some(e) if ev_due => 1000 + choice::mix(self.hash_seed, 0xe7e, e.0.seq) % 1_000_000,
+                    _ => 0,
+                };
+                let mut best = (0u64, 0usize);
+                let mut k = 0usize;
+                if me_first {
+                    best = (self.threads[me].prio + 1, 0);
+                    k = 1;
+                }
+                if ev_due {
+                    if ev_prio + 1 > best.0 {
+                        best = (ev_prio + 1, k);
+                    }
+                    k += 1;
+                }
+                for c in cands.iter().skip(if me_first { 1 } else { 0 }) {
+                    let p = self.threads[*c].prio + 1;
+                    if p > best.0 {
+                        best = (p, k);
+                    }
+                    k += 1;
+                }
+                idx = best.1;
             } else if n > 1 {
                 let stick = if !cands.is_empty() && cands[0] == me {
                     let s = self.choices.choose("stick", 100);
@@ -521,6 +567,7 @@ pub fn start(choices: ChoiceStream, cfg: SchedCfg, hash_seed: u64) {
     let gen = GENERATION.fetch_add(1, Ordering::SeqCst) + 1;
     HASH_SEED.store(hash_seed, Ordering::SeqCst);
     let mut g = lock();
+    let cfg_pct = cfg.pct;
     let ctl = TInfo {
         name: "controller".into(),
         client: false,
@@ -531,6 +578,7 @@ pub fn start(choices: ChoiceStream, cfg: SchedCfg, hash_seed: u64) {
         note: String::new(),
         last_label: "",
         wake_gen: 0,
+        prio: 0,
     };
     *g = Some(Box::new(Sim {
         threads: vec![ctl],
@@ -549,11 +597,12 @@ pub fn start(choices: ChoiceStream, cfg: SchedCfg, hash_seed: u64) {
         trace_hash: 0xcbf29ce484222325,
         text: Vec::new(),
         next_obj: 1,
-        stats: Stats::default(),
+        stats: Stats { pct_run: cfg_pct as u64, ..Stats::default() },
         hash_seed,
         io_exit_seq: None,
         draining: false,
         gates: Vec::new(),
+        pct_low: 999,
     }));
     TID.with(|t| t.set(0));
     TGEN.with(|t| t.set(gen));
@@ -955,7 +1004,10 @@ pub(crate) fn register_thread(name: String, client: bool) -> usize {
         note: String::new(),
         last_label: "spawned",
         wake_gen: 0,
+        prio: 0,
     });
+    let tid = sim.threads.len() - 1;
+    sim.threads[tid].prio = 1000 + choice::mix(sim.hash_seed, 0x9c7, tid as u64) % 1_000_000;
     sim.threads.len() - 1
 }
 
